@@ -231,6 +231,14 @@ func (e *Env) eval(x Expr) (TV, error) {
 		if x.Op == "!" {
 			return TV{not(v.t), tyBool}, nil
 		}
+		if x.Op == "*" { // *p: the value a pointer points at (heap pointers; p is assumed non-nil by partial correctness)
+			pt, ok := types.Unalias(v.ty).Underlying().(*types.Pointer)
+			if !ok {
+				return TV{}, fmt.Errorf("*%s: not a pointer", x.X)
+			}
+			l := g.heapLoc(v.t, pt.Elem())
+			return TV{g.loadIn(e.st, l), types.Unalias(pt.Elem())}, nil
+		}
 		if isFloat(v.ty) {
 			return TV{app("-", v.t), v.ty}, nil
 		}
@@ -620,6 +628,26 @@ func (e *Env) evalCall(x *ECall) (TV, error) {
 			return TV{}, err
 		}
 		return TV{g.unbox(app("i_val", v.t), ty), ty}, nil
+	case "embedded": // embedded(x, "f"): the address of field f of the struct x points at (&x.f)
+		v, err := argv(0)
+		if err != nil {
+			return TV{}, err
+		}
+		fs, ok := x.Args[1].(*EStr)
+		pt, isPtr := types.Unalias(v.ty).Underlying().(*types.Pointer)
+		if !ok || !isPtr {
+			return TV{}, fmt.Errorf("embedded(x, \"field\") needs a pointer to a struct and a field name")
+		}
+		su, isStruct := types.Unalias(pt.Elem()).Underlying().(*types.Struct)
+		if !isStruct {
+			return TV{}, fmt.Errorf("embedded: %s is not a struct", pt.Elem())
+		}
+		for i := 0; i < su.NumFields(); i++ {
+			if su.Field(i).Name() == fs.V {
+				return TV{g.fieldPtr(types.Unalias(pt.Elem()), fs.V, v.t), types.NewPointer(su.Field(i).Type())}, nil
+			}
+		}
+		return TV{}, fmt.Errorf("embedded: no field %s", fs.V)
 	case "recoverArmed": // a deferred closure that calls recover() unconditionally is registered on every path to here
 		for _, d := range g.defers {
 			db := d.Block()
@@ -824,6 +852,9 @@ func (e *Env) evalMod(x Expr) ([]modLoc, error) {
 			g.keyDecl("H:"+id.Name, g.sortOf(ty))
 			return []modLoc{{key: "H:" + id.Name}}, nil
 		}
+	}
+	if u, ok := x.(*EUnary); ok && u.Op == "*" {
+		return e.evalMod(u.X) // `modifies *p` and `modifies p` both name what p points at
 	}
 	switch x := x.(type) {
 	case *EField:
